@@ -183,6 +183,21 @@ def statement_cases():
     yield ("read:subscript-index-string", in_handler('a.say(a.sl["0"]);'), R)
     yield ("read:subscript-index-double", in_handler("a.say(a.sl[1.5]);"), R)
     yield ("read:subscript-of-int", in_handler("a.done(a.i[0]);"), R)
+    # every leaf as an index, read and written, and every leaf as the subscripted object: an index is an integer
+    for leaf in rt.all_leaves():
+        v = A if leaf[1] in ("I", "n", "U") else R
+        yield (f"read:subscript-index:{leaf[2]}", in_handler(f"a.say(a.sl[{leaf[2]}]);"), v)
+        yield (f"read:subscript-local-index:{leaf[2]}", in_handler(f"let l = a.sl; a.say(l[{leaf[2]}]);"), v)
+        yield (f"write:subscript-index:{leaf[2]}", in_handler(f'let l = a.sl; l[{leaf[2]}] = "x"; a.sl = l;'), v)
+        yield (f"write:subscript-index-compound:{leaf[2]}", in_handler(f'let l = a.sl; l[{leaf[2]}] = l[{leaf[2]}] + "x"; a.sl = l;'), v)
+        vo = A if leaf[1] == "L" else R
+        yield (f"read:subscript-of:{leaf[2]}", in_handler(f"let x = {leaf[2]}; let y = x[0];") if leaf[1] not in ("void", "null", "[]") else
+               in_handler(f"let y = ({leaf[2]})[0];"), vo)
+        if leaf[1] not in ("void", "null", "[]"):
+            yield (f"write:subscript-of:{leaf[2]}", in_handler(f'let x = {leaf[2]}; x[0] = "x";'), vo)
+        # the assigned value against the element type (QString)
+        ve = A if leaf[1] in ("S", "s") else R
+        yield (f"write:subscript-value:{leaf[2]}", in_handler(f"let l = a.sl; l[0] = {leaf[2]}; a.sl = l;"), ve)
     # calls
     calls = [("a.done(1)", A), ("a.done(a.i)", A), ("a.done()", R), ("a.done(1, 2)", R),
              ('a.done("s")', R), ("a.done(1.5)", R), ("a.done(a.u)", R), ("a.done(true)", R),
